@@ -199,9 +199,10 @@ func (in *Interp) reschedule(me *goroutine, exiting bool) {
 				}
 			}
 			preempt := !exiting && rs[0] == me
-			if preempt && s.switches >= in.cfg.MaxPreempt {
+			maxPreempt, schedFirst, blockFirst := in.schedMode() // entry configuration, or a verifSchedWindow
+			if preempt && s.switches >= maxPreempt {
 				idx = 0
-			} else if in.cfg.SchedFirst {
+			} else if schedFirst || (blockFirst && !preempt) {
 				idx = 0
 			} else {
 				idx = in.choose(len(rs), "sched")
